@@ -65,7 +65,8 @@ func builtinDateToUTCString(call FunctionCall) Value {
 func builtinDateToISOString(call FunctionCall) Value {
 	date := dateObjectOf(call.runtime, call.thisObject())
 	if date.isNaN {
-		return stringValue("Invalid Date")
+		// ECMA 262 15.9.5.43: not a finite time value is a RangeError.
+		panic(call.runtime.panicRangeError("Invalid time value"))
 	}
 	return stringValue(date.Time().Format("2006-01-02T15:04:05.000Z"))
 }
